@@ -1,4 +1,124 @@
+(* C13 — Alternate object databases are resolved like git: what is proved about the model of
+   gix_odb::alternate::resolve (Model.v) and its relation to git's algorithm (Spec.v).
+   Every statement quantifies over all file systems [fs] (any finite list of directories and files),
+   all root paths and all file contents. *)
 From GixV.Base Require Import Bytes Outcome.
-From GixV.C13 Require Import Model Spec.
-Example placeholder : realpath (bs "/a/../b") = Ok [bs "b"].
-Proof. reflexivity. Qed.
+From GixV.C13 Require Import Model Spec Proofs.
+
+(* "cycles are reported rather than followed", part 1: resolve always returns — Ok or Err, never out of
+   fuel, never a panic — whatever the alternates files contain, cycles included.  [resolve] runs the
+   stack loop with [fuel_for fs] = 2 + sum over files (3 + size) rounds; the theorem is the fuel bound. *)
+Theorem resolve_terminates : forall fs root,
+  resolve fs root <> OutOfFuel /\ resolve fs root <> Panic.
+Proof.
+  intros fs root. pose proof (resolve_terminated fs root) as H.
+  destruct (resolve fs root); cbn in H; try contradiction; split; discriminate.
+Qed.
+
+(* part 2: Error::Cycle(chain) is only returned for a real cycle: there is an item reached from the root by
+   actual alternates links ([linked]: each step reads the info/alternates of the previous directory and
+   takes one of its entries), [chain] is the list of canonical directories on the way to it, and its own
+   canonical directory is already on that chain.  A directory that is merely reachable twice (diamond) is
+   not on its own chain, so it cannot produce this error. *)
+Theorem cycle_reported_is_real : forall fs root c chain,
+  realpath root = Ok c ->
+  resolve fs root = Err (ECycle chain) ->
+  exists it, linked fs (mk_item root c []) it /\ i_chain it = chain /\ mem_comps (i_canon it) chain = true.
+Proof. exact resolve_cycle_is_real. Qed.
+
+Theorem linked_chain_is_link_path : forall fs root it,
+  linked fs root it -> chain_of fs root it (i_chain it).
+Proof. exact linked_chain. Qed.
+
+Theorem linked_has_parent : forall fs root it,
+  linked fs root it -> it = root \/
+  exists parent input entries e,
+    linked fs root parent /\ fs_read fs (alt_file (i_dir parent)) = RContent input /\
+    content input = Ok entries /\ In e entries /\
+    i_dir it = path_join (i_dir parent) e /\ realpath (i_dir it) = Ok (i_canon it) /\
+    i_chain it = i_chain parent ++ [i_canon parent].
+Proof. exact linked_parent. Qed.
+
+(* "relative entries are interpreted relative to the object directory whose alternates file names them":
+   for the alternates [kids] produced from the file of directory [dir] (canonical path [c]), every kid comes
+   from an entry e; an absolute e is taken as it is, a relative e is applied, component by component, to the
+   canonical path of [dir] — which is git's strbuf_realpath(relative_base) + "/" + entry. *)
+Theorem relative_entries_use_containing_dir : forall dir chain entries kids kid c,
+  realpath dir = Ok c ->
+  alternates_of dir chain entries = Ok kids -> In kid kids ->
+  exists e, In e entries /\
+    (is_abs e = true -> i_dir kid = e) /\
+    (is_abs e = false -> norm_rev (components e) (rev c) = Some (rev (i_canon kid))).
+Proof. exact alternate_base. Qed.
+
+Theorem join_then_realpath_is_relative_to_canonical_dir : forall dir e c c',
+  is_abs e = false -> realpath dir = Ok c -> realpath (path_join dir e) = Ok c' ->
+  norm_rev (components e) (rev c) = Some (rev c').
+Proof. exact relative_to_containing_dir. Qed.
+
+(* the file resolve reads for a directory is the info/alternates below its canonical path *)
+Theorem reads_alternates_of_canonical_dir : forall fs dir canon input,
+  realpath dir = Ok canon -> fs_read fs (alt_file dir) = RContent input ->
+  In (alt_path canon, NFile input) fs.
+Proof. exact read_alt_file. Qed.
+
+(* quoting: whenever git's unquote_c_style accepts a quoted entry, ansi_c::undo returns the same bytes;
+   and what undo accepts is either accepted by git with the same result or has no closing quote at all
+   (the known class quote-malformed) *)
+Theorem quoted_entry_unquoted_like_git : forall s o t,
+  g_unquote_go s [] = Some (o, t) -> undo_go s [] = Some o.
+Proof. intros s o t. apply unquote_agrees. Qed.
+
+Theorem undo_accepts_only_git_strings_or_unterminated : forall s o,
+  undo_go s [] = Some o -> (exists t, g_unquote_go s [] = Some (o, t)) \/ g_unquote_go s [] = None.
+Proof. intros s o. apply undo_then_git. Qed.
+
+(* The full property, NOT proved (tested by the harness against git and a transcription of git's C):
+   on layouts without the known classes, resolve lists exactly git's alternates, in git's order. *)
+Definition resolve_is_git_full_statement : Prop :=
+  forall fs root l,
+    resolve fs root = Ok l ->
+    (forall p, In p l -> g_realdir fs p <> None) ->      (* every listed path names a directory *)
+    map (fun p => match g_realdir fs p with Some c => render c | None => p end) l = git_alternates fs root.
+
+(* ---- non-vacuity ------------------------------------------------------------------------------ *)
+
+Definition o (s : String.string) : comps * node := (split_on slash (bs s), NDir).
+Definition a (s : String.string) (content : String.string) : list (comps * node) :=
+  let p := split_on slash (bs s) in
+  [(p, NDir); (p ++ [bs "info"], NDir); (p ++ [bs "info"; bs "alternates"], NFile (bs content))].
+Arguments o s%string.
+Arguments a (s content)%string.
+Definition nl : String.string := String.String (Ascii.ascii_of_nat 10) String.EmptyString.
+
+(* diamond a -> b, c; b -> d; c -> d: listed b, d, c — and git's specification says the same *)
+Definition diamond : fsys :=
+  a "R/a/o" (String.append "../../b/o" (String.append nl (String.append "../../c/o" nl))) ++ a "R/b/o" (String.append "../../d/o" nl)
+  ++ a "R/c/o" (String.append "/R/d/o" nl) ++ [o "R/d/o"].
+Example diamond_is_not_a_cycle :
+  resolve diamond (bs "/R/a/o") = Ok [bs "/R/a/o/../../b/o"; bs "/R/a/o/../../b/o/../../d/o"; bs "/R/a/o/../../c/o"]
+  /\ git_alternates diamond (bs "/R/a/o") = [bs "/R/b/o"; bs "/R/d/o"; bs "/R/c/o"].
+Proof. split; vm_compute; reflexivity. Qed.
+
+(* a -> b -> a *)
+Definition two_cycle : fsys := a "R/a/o" (String.append "../../b/o" nl) ++ a "R/b/o" (String.append "../../a/o" nl).
+Example two_cycle_is_reported :
+  resolve two_cycle (bs "/R/a/o") = Err (ECycle [[bs "R"; bs "a"; bs "o"]; [bs "R"; bs "b"; bs "o"]]).
+Proof. vm_compute. reflexivity. Qed.
+
+(* relative entries at different directory depths: the second hop is relative to /S/x/y/objects *)
+Definition nested : fsys :=
+  a "R/a/objects" (String.append "../../../S/x/y/objects" nl) ++ a "S/x/y/objects" (String.append "../../z/objects" nl)
+  ++ [o "S/x/z/objects"; o "R/z/objects"].
+Example nested_relative_entries :
+  resolve nested (bs "/R/a/objects")
+    = Ok [bs "/R/a/objects/../../../S/x/y/objects"; bs "/R/a/objects/../../../S/x/y/objects/../../z/objects"]
+  /\ git_alternates nested (bs "/R/a/objects") = [bs "/S/x/y/objects"; bs "/S/x/z/objects"]
+  /\ realpath (bs "/R/a/objects/../../../S/x/y/objects/../../z/objects") = Ok [bs "S"; bs "x"; bs "z"; bs "objects"].
+Proof. repeat split; vm_compute; reflexivity. Qed.
+
+Example quoted_entry :
+  g_unquote_go (bs "a\tb""rest") [] = Some (bs "a" ++ [x09] ++ bs "b", bs "rest")
+  /\ undo_go (bs "a\tb""rest") [] = Some (bs "a" ++ [x09] ++ bs "b")
+  /\ undo_go (bs "unterminated") [] = Some (bs "unterminated") /\ g_unquote_go (bs "unterminated") [] = None.
+Proof. repeat split; vm_compute; reflexivity. Qed.
